@@ -278,6 +278,7 @@ def mergeClustersImpl (b : Buf) (start end_ : Nat) : M Buf := do
   let g0 ← rd b.info start
   let cluster ← forUp (end_ - (start + 1))
     (fun k c => do let g ← rd b.info (start + 1 + k); pure (min c g.cl)) g0.cl
+  if end_ == 0 then throw .oob          -- info[end - 1] with end = 0
   let gl ← rd b.info (end_ - 1)
   let end_ ← if cluster != gl.cl then extendEnd b.info b.len (b.len - end_) end_ else pure end_
   let gs ← rd b.info start
@@ -290,8 +291,8 @@ def mergeClustersImpl (b : Buf) (start end_ : Nat) : M Buf := do
 /-- src: buffer.rs::merge_clusters — only the two glyph vectors change (the control fields are copied
     from the argument, which makes that evident to the proofs). -/
 def mergeClusters (b : Buf) (start end_ : Nat) : M Buf := do
-  if end_ < start then throw .wrap
-  if end_ - start < 2 then return b
+  -- `end - start < 2` in usize: for end < start the difference wraps to a huge number (not < 2)
+  if start ≤ end_ && end_ - start < 2 then return b
   let b' ← mergeClustersImpl b start end_
   return { b with info := b'.info, out := b'.out }
 
